@@ -312,11 +312,22 @@ def build():
         return None
 
     p.models["jobsset.remove"] = jobsset_remove
-    p.models["jobsset.__iter__"] = lambda interp, recv, args, kwargs: Opaque("jobsset_iter", None)
+    def jobsset_iter(interp, recv, args, kwargs):
+        # completion callbacks add to this set (under Parallel._lock: part 1); iterating a set while another thread changes its size raises
+        # RuntimeError('Set changed size during iteration'), so the reader needs the same lock
+        held(interp, "_jobs_set.__iter__")
+        return Opaque("jobsset_iter", None)
+
+    p.models["jobsset.__iter__"] = jobsset_iter
     def jobsset_next(interp, it, args, kwargs):
         if not args:
             raise Unsupported("next() without default on the set of dispatched jobs")
-        return Opt(TRef).fresh(interp.ctx, "control_job")
+        # some member of _jobs_set: a dispatched job whose results have not been retrieved (a job leaves the set exactly when it is popped
+        # from the completed-jobs queue: obligation jobs_set.remove below), or the default when the set is empty
+        t = Opt(TRef).fresh(interp.ctx, "control_job")
+        if t is not None:
+            interp.ctx.assume(z3.Not(z3.Select(interp.ctx.ghost["DELIVERED"].term, t.term)))
+        return t
 
     p.models["jobsset_iter.__next__"] = jobsset_next
     p.write_hooks[("TRef", "_completion_timeout_counter")] = lambda interp, obj, attr, v: interp.ctx.events.append(("reset-timeout-counter", obj))
@@ -335,11 +346,15 @@ def build():
         exsures={"ValueError": {"the_tasks_own_exception": "same_exc(exc)"}},
         loops={
             1: Loop("while self._wait_retrieval()",
-                    invariant={"queued_jobs_undelivered_and_distinct": "jobs_fresh(self)", "lock_free": "lock_depth() == 0"},
+                    invariant={"queued_jobs_undelivered_and_distinct": "jobs_fresh(self)", "lock_free": "lock_depth() == 0",
+                               # C04 (timeout in completion order): while nothing is ready the clock that is consulted must belong to a job the
+                               # caller is still waiting for - never to one whose results were already handed over (it would never expire)
+                               "the_timeout_clock_watches_a_job_still_waited_for": "timeout_control_job is None or not delivered(timeout_control_job)"},
                     kinds={"batched_results": TRef, "timeout_control_job": Opt(TRef)},
                     havoc=["ghost:NY"]),
             2: Loop("for result in batched_results",
-                    invariant={"yields_in_item_order": "NY == lo_of(popped()) + _i", "rest_of_jobs": "jobs_fresh(self)", "batch_marked_delivered": "delivered(popped())"},
+                    invariant={"yields_in_item_order": "NY == lo_of(popped()) + _i", "rest_of_jobs": "jobs_fresh(self)", "batch_marked_delivered": "delivered(popped())",
+                               "the_timeout_clock_watches_a_job_still_waited_for": "timeout_control_job is None or not delivered(timeout_control_job)"},
                     havoc=["ghost:NY"]),
         },
     ))
